@@ -9,6 +9,17 @@ use cucumber::{
 
 use crate::hs::{CustomPayload, TW};
 
+/// Identity of a rule in the canonical events: its name, or - in harness features whose rules
+/// share a name or have none (`@twin-rules` / `@unnamed-rules`) - `<feature>.R<k>` by position.
+pub fn rule_id(f: &gherkin::Feature, r: &gherkin::Rule) -> String {
+    if f.tags.iter().any(|t| t == "twin-rules" || t == "unnamed-rules") {
+        let k = f.rules.iter().position(|x| x.position.line == r.position.line).map_or(0, |k| k + 1);
+        format!("{}.R{k}", f.name)
+    } else {
+        r.name.clone()
+    }
+}
+
 pub fn payload(info: &Info) -> String {
     if let Some(s) = info.downcast_ref::<String>() {
         format!("String:{s}")
@@ -16,6 +27,8 @@ pub fn payload(info: &Info) -> String {
         format!("str:{s}")
     } else if let Some(c) = info.downcast_ref::<CustomPayload>() {
         format!("Custom:{}", c.0)
+    } else if let Some(e) = info.downcast_ref::<Box<dyn std::error::Error + Send + Sync>>() {
+        format!("BoxErr:{e}")
     } else if info.downcast_ref::<cucumber::verif::IdleSpin>().is_some() {
         "IdleSpin".into()
     } else {
@@ -228,11 +241,11 @@ pub fn canon(item: &parser::Result<Event<Cucumber<TW>>>) -> Ev {
                     ev: sc_ev(&re.event),
                 },
                 Feature::Rule(r, re) => match re {
-                    Rule::Started => Ev::RuleStarted(f.name.clone(), r.name.clone()),
-                    Rule::Finished => Ev::RuleFinished(f.name.clone(), r.name.clone()),
+                    Rule::Started => Ev::RuleStarted(f.name.clone(), rule_id(f, r)),
+                    Rule::Finished => Ev::RuleFinished(f.name.clone(), rule_id(f, r)),
                     Rule::Scenario(s, re) => Ev::Sc {
                         f: f.name.clone(),
-                        r: Some(r.name.clone()),
+                        r: Some(rule_id(f, r)),
                         s: s.name.clone(),
                         ptrs: (ptr(f), ptr(r), ptr(s)),
                         retries: re.retries.map(|r| (r.current, r.left)),
